@@ -73,19 +73,15 @@ class ExpectationMaximization(ParameterEstimator):
         """
         likelihood = 0
         for cpd in self.model_copy.cpds:
-            scope = set(cpd.scope())
-            likelihood += log(
-                max(
-                    cpd.get_value(
-                        **{
-                            key: value
-                            for key, value in datapoint.items()
-                            if key in scope
-                        }
-                    ),
-                    1e-10,
-                )
-            )
+            # Index by state number (as `get_value` does, but `get_value(**kwargs)`
+            # works only for variable names that are strings).
+            index = []
+            for var in cpd.variables:
+                try:
+                    index.append(cpd.get_state_no(var, datapoint[var]))
+                except KeyError:
+                    index.append(datapoint[var])
+            likelihood += log(max(cpd.values[tuple(index)], 1e-10))
         return likelihood
 
     def _parallel_compute_weights(
